@@ -77,11 +77,17 @@ func run(c *hc.Ctx) error {
 	for _, n := range sizes {
 		side := hc.Pick(r, crypto.Client, crypto.Server)
 		roundTrip(c, &q, side, r.Bytes(n), r.Intn(3))
+		if err := q.MaybeFlush(c); err != nil {
+			return err
+		}
 	}
 	// ---- 3. hand-made frames: padding below / at / above the bounds, misaligned length fields (D2)
 	nf := c.N(4000, 100000)
 	for i := 0; i < nf; i++ {
 		c04shared.CraftedFrame(c, &q, "C04")
+		if err := q.MaybeFlush(c); err != nil {
+			return err
+		}
 	}
 	if err := q.Flush(c); err != nil {
 		return err
@@ -134,7 +140,7 @@ func roundTrip(c *hc.Ctx, q *c04shared.Queue, side crypto.Side, payload []byte, 
 	var b bin.Buffer
 	line := fmt.Sprintf("enc %s %s %s %d %d %d %d %d %s %s", c04shared.SideName(side), hc.Hex(key[:]), hc.Hex(ak.ID[:]),
 		uint64(salt), uint64(sid), uint64(mid), uint32(seq), uint32(len(wire)), hc.Hex(wire), hc.Hex(rnd))
-	c.Eval(line, true)
+	c.Eval(c04shared.Sig(line), true)
 	if err := enc.Encrypt(ak, d, &b); err != nil {
 		c.Fail("encrypt-error", line, err.Error())
 		return
